@@ -507,6 +507,25 @@ func c19Run(r *core.Run) {
 		}
 		note("minimum_tee_tcb_svn %s in-config=%v", fStateNames[teeState], teeInConfig)
 	}
+	// any_mr_td (config only): an allow-list next to, and independent of, the exact mr_td expectation
+	anyState := fAbsent
+	if useConfig && t.Chance(1, 4) {
+		anyState = 1 + t.Draw(2)
+		if !allow(3) {
+			anyState = fMatch
+		}
+		list := [][]byte{t.Bytes(48)}
+		if anyState == fMatch {
+			list = append(list, append([]byte(nil), w.Quote.MrTd[:]...))
+			if t.Bool() {
+				list[0], list[1] = list[1], list[0]
+			}
+		} else {
+			list = append(list, t.Bytes(48))
+		}
+		policy.TdQuoteBodyPolicy.AnyMrTd = list
+		note("any_mr_td %s in-config", fStateNames[anyState])
+	}
 	rtmrsBad := false
 	if t.Chance(1, 5) {
 		var hexes []string
@@ -609,6 +628,10 @@ func c19Run(r *core.Run) {
 	}
 	if rtmrsBad {
 		policyFails = "rtmrs"
+	}
+	if anyState == fMismatch && !dropped("td_quote_body_policy") {
+		policyFails = "any_mr_td"
+		r.Probe("config_any_mr_td_without_the_quotes_value")
 	}
 	if flagMalformed != "" {
 		causes.add(1, "malformed -"+flagMalformed)
@@ -841,7 +864,7 @@ func init() {
 	register(&core.Check{
 		ID:    "C19",
 		Level: "exploration",
-		Rule: "one process of the built tools/check binary (tag-guarded getter hook) per run, in a per-run directory populated from the tape: quote valid / forged body or QE signature / unparsable / structurally partial message / binary quote with boundary values in its size and type fields, in bin / proto / textproto form; config none / binary / .textproto with root-of-trust (bundle file, inline PEM, foreign root, mixed, missing file) and options; each of 9 exact-match fields independently absent / matching / mismatching / malformed in config and in flags; minimum SVN flags incl. explicit 0 and hex; minimum TEE TCB SVN and RTMR expectations; absent sub-policies; corrupted config; network honest / four kinds of transport failure / garbage body / OutOfDate level / unreachable (no hook: the sandbox's sealed network). The exit status must lie in the set the tool contract gives for the injected causes (singleton when there is one cause), and stderr must show no Go panic. " +
+		Rule: "one process of the built tools/check binary (tag-guarded getter hook) per run, in a per-run directory populated from the tape: quote valid / forged body or QE signature / unparsable / structurally partial message / binary quote with boundary values in its size and type fields, in bin / proto / textproto form; config none / binary / .textproto with root-of-trust (bundle file, inline PEM, foreign root, mixed, missing file) and options; each of 9 exact-match fields independently absent / matching / mismatching / malformed in config and in flags; minimum SVN flags incl. explicit 0 and hex; minimum TEE TCB SVN and RTMR expectations; an any_mr_td allow-list in the config with or without the quote's value; absent sub-policies; corrupted config; network honest / four kinds of transport failure / garbage body / OutOfDate level / unreachable (no hook: the sandbox's sealed network). The exit status must lie in the set the tool contract gives for the injected causes (singleton when there is one cause), and stderr must show no Go panic. " +
 			"distinct = (quote kind, roots, options, network, config present, policy failing, exit status)",
 		Assumptions: []string{
 			"worlds are generated around the real wall clock (the tool has no time seam); validity windows are weeks to years wide",
